@@ -2,6 +2,8 @@ package simrt
 
 import (
 	"fmt"
+	"runtime"
+	"sync"
 	"sync/atomic"
 	"time"
 	"unsafe"
@@ -23,10 +25,11 @@ const (
 	KOnceDone
 	KStep
 	KStamp
+	KSpawn
 	KEnd
 )
 
-var kindNames = [...]string{"start", "yield", "get", "put", "lock", "unlock", "rlock", "runlock", "once-enter", "once-done", "step", "stamp", "end"}
+var kindNames = [...]string{"start", "yield", "get", "put", "lock", "unlock", "rlock", "runlock", "once-enter", "once-done", "step", "stamp", "spawn", "end"}
 
 func (k Kind) String() string { return kindNames[k] }
 
@@ -102,6 +105,7 @@ type Stats struct {
 	ClockJumps     int            `json:"clock_jumps"`               // simulated hours skipped because only timers could make progress
 	ExternalBlocks int            `json:"blocked_outside_simulator"` // a task blocked on a channel/Cond/... of the code under test
 	Leaked         []int          `json:"tasks_blocked_forever,omitempty"`
+	Spawned        int            `json:"goroutines_started_by_the_code_under_test"`
 	Diverged       bool           `json:"replay_diverged"`
 	TraceHash      uint64         `json:"trace_hash"`
 	SitePairs      map[uint64]int `json:"-"` // (kind/site of task i) -> (kind/site of next task j != i)
@@ -114,6 +118,7 @@ type ErrAbort struct{ Reason string }
 func (e ErrAbort) Error() string { return "simrt abort: " + e.Reason }
 
 type req struct {
+	seed uint64 // KSpawn: seed for the child's map-order stream (drawn from the parent's)
 	task *task
 	kind Kind
 	site int32
@@ -123,6 +128,7 @@ type req struct {
 
 type resp struct {
 	ev     int
+	child  *task
 	abort  string
 	obj    any
 	fresh  bool
@@ -151,6 +157,7 @@ type task struct {
 	step    int // bumped by StepMark
 	aborted bool
 	prio    int
+	dynamic bool  // started by a go statement of the code under test
 	order   *Rand // map-order stream; used only by the task goroutine itself
 }
 
@@ -204,8 +211,9 @@ type Sim struct {
 	Trace     []TraceEvent
 	keepTrace bool
 
-	quiescent func()        // blocks until every other goroutine of the bubble is durably blocked (synctest.Wait)
-	stuck     chan struct{} // monitor -> scheduler: nothing can run
+	awaitStart *task         // child of the go statement just executed: its start request must arrive before anything else is decided
+	quiescent  func()        // blocks until every other goroutine of the bubble is durably blocked (synctest.Wait)
+	stuck      chan struct{} // monitor -> scheduler: nothing can run
 }
 
 // TraceEvent is one scheduler decision (kept only when tracing is requested).
@@ -219,6 +227,27 @@ type TraceEvent struct {
 
 var active atomic.Pointer[Sim]
 var curTask atomic.Pointer[task]
+
+// freeRunning is set once a task of the current simulation may run outside the scheduler's
+// one-at-a-time regime (it blocked on a primitive of the code under test and was released by
+// another task). From then on the calling task is identified by its goroutine id instead of by
+// "the task the scheduler resumed last".
+var freeRunning atomic.Bool
+var gtab sync.Map // goroutine id -> *task
+
+func goid() uint64 {
+	var buf [64]byte
+	n := runtime.Stack(buf[:], false)
+	// "goroutine 123 [running]:"
+	var id uint64
+	for _, c := range buf[len("goroutine "):n] {
+		if c < '0' || c > '9' {
+			break
+		}
+		id = id*10 + uint64(c-'0')
+	}
+	return id
+}
 
 // Active reports whether a simulation is running.
 func Active() bool { return active.Load() != nil }
@@ -279,10 +308,13 @@ func (s *Sim) Run(bodies []func()) {
 	if !active.CompareAndSwap(nil, s) {
 		panic("simrt: simulation already active")
 	}
+	freeRunning.Store(false)
+	gtab.Clear()
 	for i := range bodies {
 		t, body := s.tasks[i], bodies[i]
 		go func() {
 			defer close(t.finished)
+			register(t)
 			s.call(t, req{task: t, kind: KStart})
 			defer func() { s.call(t, req{task: t, kind: KEnd}) }()
 			body()
@@ -305,6 +337,12 @@ func (s *Sim) Run(bodies []func()) {
 	}
 	curTask.Store(nil)
 	active.Store(nil)
+}
+
+func register(t *task) {
+	raceDisable()
+	gtab.Store(goid(), t)
+	raceEnable()
 }
 
 func (s *Sim) monitor() {
@@ -344,7 +382,14 @@ func current() (*Sim, *task) {
 		return nil, nil
 	}
 	raceDisable()
-	t := curTask.Load()
+	var t *task
+	if freeRunning.Load() {
+		if v, ok := gtab.Load(goid()); ok {
+			t = v.(*task)
+		}
+	} else {
+		t = curTask.Load()
+	}
 	raceEnable()
 	if t == nil {
 		panic("simrt: call from a goroutine that is not a simulated task while a simulation is active")
@@ -481,6 +526,7 @@ func (s *Sim) resume(t *task, rs resp) {
 				// every goroutine is durably blocked although t was given the processor: t waits
 				// on something the simulator does not model
 				t.state = tsExternal
+				freeRunning.Store(true)
 				s.stats.ExternalBlocks++
 				s.trace(t, "blocked-outside-simulator", "")
 				s.hash(0xb10c, uint64(t.id))
@@ -488,6 +534,12 @@ func (s *Sim) resume(t *task, rs resp) {
 			}
 		}
 		if r.task != t {
+			if r.task.state == tsNew && r.kind == KStart {
+				// the goroutine of a go statement the running task has just executed
+				r.task.pending = r
+				r.task.state = tsPending
+				continue
+			}
 			if r.task.state != tsExternal {
 				panic(fmt.Sprintf("simrt: request from task %d while task %d is running", r.task.id, t.id))
 			}
@@ -496,6 +548,19 @@ func (s *Sim) resume(t *task, rs resp) {
 			continue
 		}
 		s.accept(t, r)
+		// after a go statement: the child registers before anything else is decided (determinism)
+		for s.awaitStart != nil && s.awaitStart.state == tsNew {
+			r := <-s.reqCh
+			if r.task == s.awaitStart && r.kind == KStart {
+				r.task.pending = r
+				r.task.state = tsPending
+			} else if r.task.state == tsExternal {
+				s.accept(r.task, r)
+			} else {
+				panic(fmt.Sprintf("simrt: unexpected request from task %d while waiting for a spawned goroutine", r.task.id))
+			}
+		}
+		s.awaitStart = nil
 		return
 	}
 }
@@ -797,6 +862,19 @@ func (s *Sim) complete(t *task) resp {
 		}
 	case KStamp:
 		return resp{ev: s.ev}
+	case KSpawn:
+		// a `go` statement of the code under test: the new goroutine becomes a task of its own.
+		// The struct is allocated here; the child acquires what is released below, which orders
+		// this allocation (and nothing any task did) before the child's first use of it.
+		c := &task{id: len(s.tasks), resp: make(chan resp), finished: make(chan struct{}), order: NewRand(Mix(r.seed, uint64(len(s.tasks)))), prio: t.prio, dynamic: true}
+		raceEnable()
+		RaceReleaseMerge(unsafe.Pointer(c))
+		raceDisable()
+		s.tasks = append(s.tasks, c)
+		s.stats.PerTaskEvents = append(s.stats.PerTaskEvents, 0)
+		s.stats.Spawned++
+		s.awaitStart = c
+		return resp{child: c}
 	}
 	return resp{}
 }
@@ -868,6 +946,31 @@ func StepMark() {
 		return
 	}
 	s.call(t, req{task: t, kind: KStep})
+}
+
+// Go is what `go f(...)` statements of the canvas packages are rewritten to: inside a simulation the
+// new goroutine becomes a task of its own (scheduled at decision points like the others; if it
+// waits on a channel / WaitGroup of the code under test, see SetQuiescenceWait). The real go
+// statement is executed by the calling task, so the race detector sees the usual edge.
+func Go(fn func()) {
+	s, t := current()
+	if s == nil {
+		go fn()
+		return
+	}
+	rs := s.call(t, req{task: t, kind: KSpawn, seed: t.order.Uint64()})
+	c := rs.child
+	go func() {
+		RaceAcquire(unsafe.Pointer(c))
+		defer close(c.finished)
+		register(c)
+		s.call(c, req{task: c, kind: KStart})
+		defer func() { s.call(c, req{task: c, kind: KEnd}) }()
+		fn()
+	}()
+	// let the scheduler see the child's start request before this task goes on: the child is then
+	// a known, runnable task at the caller's next decision point
+	s.call(t, req{task: t, kind: KYield, site: -4})
 }
 
 // Stamp returns the scheduler's global event sequence number at the moment the calling task is
